@@ -1,5 +1,6 @@
 import RactorModel.Lemmas.Remote
 import RactorModel.Lemmas.Link
+import RactorModel.Lemmas.Listener
 import RactorModel.Lemmas.Mux
 import RactorModel.Lemmas.RacingScan
 import RactorModel.Lemmas.RemoteComplete
@@ -633,6 +634,114 @@ example :
     ((p.cleanup (· < 18)).pending.map (·.1), (p.cleanup (· < 18)).cursor) = ([17, 18, 19, 20], some 16) := by
   decide
 
+/-! ## the real socket path: accept loop and client connect (`Model/Listener.lean`, round 4)
+
+`net/listener.rs` (`Listener::handle`), `node/client.rs` (`connect` / `connect_enc`) and the
+`ConnectionOpened` arm of `node.rs`, for EVERY interleaving of accept iterations (with any answer
+of `accept()`, of the socket setup and of the TLS acceptor), listener respawns, client connects
+(refused, failing after the connect, node gone, successful) and `NodeServer` handler steps. -/
+
+/-- Every connection the listener accepted and passed on gets EXACTLY ONE session, server-side,
+in acceptance order; every successful `connect` gets exactly one session, client-side; no session
+belongs to anything else (once the `NodeServer` has worked off its mailbox), and before that the
+sessions created so far are a prefix of them. -/
+theorem every_accepted_connection_gets_exactly_one_session (evs : List Listener.Ev) :
+    let s := Listener.run {} evs
+    Listener.serverSessions (Listener.drain s) = s.accepted ∧
+    Listener.clientSessions (Listener.drain s) = s.dialled ∧
+    (((Listener.drain s).sessions.map (·.1)).Nodup) ∧
+    (s.accepted ++ s.dialled).Nodup ∧
+    s.sessions <+: (Listener.drain s).sessions := by
+  intro s
+  have h := Listener.inv_run evs {} Listener.inv_init
+  have hs : (Listener.drain s).sessions = Listener.opened s := rfl
+  have hnd : ((Listener.opened s).map (·.1)).Nodup :=
+    h.asc.imp (fun hab => Nat.ne_of_lt hab)
+  refine ⟨by simp only [Listener.serverSessions, hs]; exact h.srv,
+          by simp only [Listener.clientSessions, hs]; exact h.cli, by rw [hs]; exact hnd, ?_,
+          by rw [hs]; exact List.prefix_append _ _⟩
+  -- accepted and dialled are the two halves of a duplicate-free list
+  rw [← h.srv, ← h.cli]
+  exact Listener.nodup_split _ hnd
+
+/-- A `connect` that fails - refused, failing socket setup / TLS handshake, node gone - returns an
+error and leaves NO trace: neither a queued `ConnectionOpened` nor, ever after, a session; the number
+of client-side sessions never exceeds the number of `connect` calls that returned `Ok`. -/
+theorem failed_connect_reports_error_and_creates_no_session (evs : List Listener.Ev) (c : Listener.Connect)
+    (hc : c ≠ .ok) :
+    let s := Listener.run {} evs
+    let s' := Listener.step s (.connect c)
+    s'.connectErrs = s.connectErrs + 1 ∧ s'.connectOks = s.connectOks ∧
+    s'.queue = s.queue ∧ s'.sessions = s.sessions ∧ s'.dialled = s.dialled ∧
+    (Listener.clientSessions (Listener.drain s')).length = s.connectOks := by
+  intro s s'
+  have h := Listener.inv_run evs {} Listener.inv_init
+  have h' := Listener.inv_step s (.connect c) h
+  have hs : (Listener.drain s').sessions = Listener.opened s' := rfl
+  have e : s'.connectErrs = s.connectErrs + 1 ∧ s'.connectOks = s.connectOks ∧
+      s'.queue = s.queue ∧ s'.sessions = s.sessions ∧ s'.dialled = s.dialled := by
+    cases c <;> simp_all [s', Listener.step]
+  refine ⟨e.1, e.2.1, e.2.2.1, e.2.2.2.1, e.2.2.2.2, ?_⟩
+  simp only [Listener.clientSessions, hs]
+  rw [h'.cli, e.2.2.2.2]
+  exact h.oks
+
+/-- The listener survives ANY sequence of `accept()` errors (and of failed TLS handshakes): it is still
+accepting afterwards, and the next good connection gets its server-side session. In general the accept
+loop is only ever down between a failed socket setup and the `NodeServer`'s respawn, which is then due. -/
+theorem listener_survives_accept_errors (evs : List Listener.Ev) (errs : List Listener.Accept)
+    (herrs : ∀ a ∈ errs, a = .err ∨ a = .okTlsFails) :
+    let s := Listener.run {} evs
+    (s.listenerUp = false → s.respawnDue = true ∧ (Listener.step s .respawn).listenerUp = true) ∧
+    (s.listenerUp = true →
+      let t := Listener.run s (errs.map .accept)
+      t.listenerUp = true ∧ t.sessions = s.sessions ∧ t.queue = s.queue ∧
+      (Listener.step t (.accept .ok)).queue = s.queue ++ [(t.nextConn, true)]) := by
+  intro s
+  have h := Listener.inv_run evs {} Listener.inv_init
+  refine ⟨fun hd => ⟨h.up hd, by have hr : s.respawnDue = true := h.up hd; simp only [Listener.step]; rw [if_pos hr]⟩, ?_⟩
+  intro hup
+  have key : ∀ (errs : List Listener.Accept) (u : Listener.S), (∀ a ∈ errs, a = .err ∨ a = .okTlsFails) →
+      u.listenerUp = true →
+      (Listener.run u (errs.map .accept)).listenerUp = true ∧
+      (Listener.run u (errs.map .accept)).sessions = u.sessions ∧
+      (Listener.run u (errs.map .accept)).queue = u.queue := by
+    intro errs
+    induction errs with
+    | nil => intro u _ hu; exact ⟨hu, rfl, rfl⟩
+    | cons a as ih =>
+      intro u ha hu
+      have h1 := ha a (List.mem_cons_self ..)
+      have ih' := ih (Listener.step u (.accept a)) (fun b hb => ha b (List.mem_cons_of_mem _ hb))
+        (by rcases h1 with rfl | rfl <;> simp [Listener.step, hu])
+      have e : (Listener.step u (.accept a)).sessions = u.sessions ∧ (Listener.step u (.accept a)).queue = u.queue := by
+        rcases h1 with rfl | rfl <;> simp [Listener.step, hu]
+      simp only [List.map_cons, Listener.run, List.foldl_cons]
+      exact ⟨ih'.1, ih'.2.1.trans e.1, ih'.2.2.trans e.2⟩
+  have k := key errs s herrs hup
+  refine ⟨k.1, k.2.1, k.2.2, ?_⟩
+  simp [Listener.step, k.1, k.2.2]
+
+/-- non-vacuity: two accepts around an accept error and a failed setup with respawn, one refused and
+one successful connect: sessions (0, server), (2, client), (3, server); connection 1 died in setup. -/
+example :
+    let s := Listener.drain (Listener.run {} [.accept .ok, .accept .err, .accept .okSetupFails, .accept .ok,
+      .respawn, .connect .refused, .connect .ok, .nodeHandles, .accept .ok])
+    s.sessions = [(0, true), (2, false), (3, true)] ∧ s.connectErrs = 1 ∧ s.acceptErrs = 1 := by decide
+
+/-- the run-time clause the TCP engines evaluate holds of the model: sessions = connections made -/
+theorem listener_oracle_model (evs : List Listener.Ev) :
+    let s := Listener.drain (Listener.run {} evs)
+    Listener.ok s.accepted.length s.dialled.length 0 0
+      (Listener.serverSessions s).length (Listener.clientSessions s).length = true := by
+  intro s
+  have h := every_accepted_connection_gets_exactly_one_session evs
+  simp only [Listener.ok]
+  have e1 : (Listener.serverSessions s) = s.accepted := h.1
+  have e2 : (Listener.clientSessions s) = s.dialled := h.2.1
+  simp [e1, e2]
+
+
 /-- (every exit is announced exactly once, whatever traffic is in flight) `Advert`: actors start,
 stop (leave the pid registry; their `Terminate` event is queued at the session), the session
 handles the queued events, and inbound `Cast` / `Call` frames for ANY pid are handled at ANY point
@@ -703,5 +812,9 @@ example :
 #print axioms C20.reply_touches_only_the_addressed_proxy
 #print axioms C20.send_accepted_iff_reference_live
 #print axioms C20.stopping_one_reference_closes_the_session
+#print axioms C20.every_accepted_connection_gets_exactly_one_session
+#print axioms C20.failed_connect_reports_error_and_creates_no_session
+#print axioms C20.listener_survives_accept_errors
+#print axioms C20.listener_oracle_model
 
 end C20
